@@ -93,6 +93,7 @@ CarryLen(groups, i) == IF i > Len(groups) THEN 0 ELSE Len(groups[i]) + CarryLen(
 NextIsRound == IF l + 1 <= Len(Log) THEN Log[l + 1].e = "Round" ELSE FALSE
 
 SyncSlots == {Ev.sync[i].s : i \in 1..Len(Ev.sync)}
+SyncSer(s) == (CHOOSE i \in 1..Len(Ev.sync) : Ev.sync[i].s = s)
 \* how the messages staged for r by this step are accounted for: "now" (they are the next observations of this
 \* round) or "carry" (the client had stopped reading for this round: it reads them first thing next round).
 \* A monitor cannot take part in the barrier; the driver reads it until it falls quiet after the last closing
@@ -108,26 +109,41 @@ LateMonitor(r) == cst[r] = "monitor" /\ IsRound /\ sdone = SyncSlots /\ \A s \in
 Mode(r, grp) == IF r \in sdone THEN "carry"
                 ELSE IF LateMonitor(r) /\ (carry[r] # <<>> \/ ~NowOK(r, grp)) THEN "carry"
                 ELSE "now"
-ExplainOK(g) ==
+\* sy is the client whose closing ping this step is (NoSlot otherwise): the driver stops reading that client at the
+\* reply to the ping, so whatever the same action stages for it after that reply (its own eavesdropping rule may
+\* match the ping) is read first thing next round
+SyncCut(grp, sy) == IF \E k \in 1..Len(grp) : IsReply(grp[k]) /\ grp[k].rs = Ev.sync[SyncSer(sy)].ser
+                    THEN CHOOSE k \in 1..Len(grp) : /\ IsReply(grp[k]) /\ grp[k].rs = Ev.sync[SyncSer(sy)].ser
+                                                    /\ \A j \in 1..(k - 1) : ~(IsReply(grp[j]) /\ grp[j].rs = grp[k].rs)
+                    ELSE Len(grp)
+NowPart(r, sy) == LET grp == GroupFor(out', r) IN IF r = sy THEN SubSeq(grp, 1, SyncCut(grp, sy)) ELSE grp
+LatePart(r, sy) == LET grp == GroupFor(out', r) IN IF r = sy THEN SubSeq(grp, SyncCut(grp, sy) + 1, Len(grp)) ELSE <<>>
+ExplainOK(g, sy) ==
   \A r \in Slot : r \notin g =>
-        LET grp == GroupFor(out', r) IN
+        LET grp == NowPart(r, sy)
+            late == LatePart(r, sy) IN
         IF grp = <<>> THEN TRUE
-        ELSE IF Mode(r, grp) = "now" THEN NowOK(r, grp)
+        ELSE IF Mode(r, grp) = "now"
+             THEN /\ NowOK(r, grp)
+                  /\ (late # <<>> /\ NextIsRound) => CarryMatch(Log[l + 1].obs[r], 0, Append(carry[r], late), 1)
         ELSE IF NextIsRound THEN CarryMatch(Log[l + 1].obs[r], 0, Append(carry[r], grp), 1) ELSE TRUE
-Explain(g) ==
-  /\ \/ ExplainOK(g)
+ExplainS(g, sy) ==
+  /\ \/ ExplainOK(g, sy)
      \/ /\ Debug
         /\ PrintT(<<"MISMATCH", ToJson([l |-> l, pos |-> pos, cnt |-> cnt, out |-> out',
-                     bad |-> {r \in Slot : r \notin g /\ GroupFor(out', r) # <<>> /\ Mode(r, GroupFor(out', r)) = "now"
-                                           /\ ~NowOK(r, GroupFor(out', r))},
-                     badcarry |-> {r \in Slot : r \notin g /\ GroupFor(out', r) # <<>> /\ Mode(r, GroupFor(out', r)) = "carry"}])>>)
+                     bad |-> {r \in Slot : r \notin g /\ NowPart(r, sy) # <<>> /\ Mode(r, NowPart(r, sy)) = "now"
+                                           /\ ~NowOK(r, NowPart(r, sy))},
+                     badcarry |-> {r \in Slot : r \notin g /\ NowPart(r, sy) # <<>> /\ Mode(r, NowPart(r, sy)) = "carry"}])>>)
         /\ FALSE
-  /\ cnt' = [r \in Slot |-> IF r \in g \/ GroupFor(out', r) = <<>> \/ Mode(r, GroupFor(out', r)) = "carry"
+  /\ cnt' = [r \in Slot |-> IF r \in g \/ NowPart(r, sy) = <<>> \/ Mode(r, NowPart(r, sy)) = "carry"
                              THEN cnt[r]
-                             ELSE IF cnt[r] + Len(GroupFor(out', r)) <= Len(Ev.obs[r]) THEN cnt[r] + Len(GroupFor(out', r))
+                             ELSE IF cnt[r] + Len(NowPart(r, sy)) <= Len(Ev.obs[r]) THEN cnt[r] + Len(NowPart(r, sy))
                              ELSE cnt[r]]
-  /\ carry' = [r \in Slot |-> IF r \notin g /\ GroupFor(out', r) # <<>> /\ Mode(r, GroupFor(out', r)) = "carry"
-                               THEN Append(carry[r], GroupFor(out', r)) ELSE carry[r]]
+  /\ carry' = [r \in Slot |-> IF r \notin g /\ NowPart(r, sy) # <<>> /\ Mode(r, NowPart(r, sy)) = "carry"
+                               THEN Append(carry[r], NowPart(r, sy))
+                               ELSE IF r \notin g /\ LatePart(r, sy) # <<>> THEN Append(carry[r], LatePart(r, sy))
+                               ELSE carry[r]]
+Explain(g) == ExplainS(g, NoSlot)
 
 \* ---- abstract message of a "send" op
 OpMsg(op) == Msg(op.ty, <<>>, op.dst, op.ser, op.rs, op.path, op.ifc, op.mem, op.err, op.sig, op.args, op.fl, 0, "exact")
@@ -222,13 +238,12 @@ TSkip(s) ==
   /\ UNCHANGED vars /\ UNCHANGED <<l, cnt, sdone, gone, kicked, devs, carry>>
 
 AllOpsDone == \A s \in Slot : pos[s] = Len(Ev.ops[s])
-SyncSer(s) == (CHOOSE i \in 1..Len(Ev.sync) : Ev.sync[i].s = s)
 \* the driver does the closing pings one client after the other, in increasing slot order
 TSync(s) ==
   /\ IsRound /\ AllOpsDone /\ s \in SyncSlots \ sdone /\ \A x \in SyncSlots \ sdone : s <= x
   /\ Query(s, Ev.sync[SyncSer(s)].ser, 0, "ping", <<>>)
   /\ sdone' = sdone \cup {s}
-  /\ Explain(gone \cup kicked)
+  /\ ExplainS(gone \cup kicked, s)
   /\ UNCHANGED <<l, pos, gone, kicked, devs, skipd>>
 
 TDrop(s) ==
